@@ -47,6 +47,7 @@ let op_enumcheck _ =
   "] covered=" ^ cov
 
 let ops : (S.t * (S.t array -> S.t)) list = [
+  "env", (fun _ -> "env set");
   "epoch", op_epoch;
   "epoch2", op_epoch2;
   "epoch_frames", op_epoch_frames;
